@@ -32,6 +32,9 @@ UNIT_DEPS = {
     'prim_add': ['add', 'conv'],
     'prim_sub': ['sub', 'add', 'conv'],
     'prim_mul': ['mul', 'conv'],
+    'round': ['core', 'pow10', 'types', 'context'],
+    'config': ['types'],
+    'context': ['types', 'config', 'round'],
 }
 
 
@@ -58,7 +61,7 @@ NOT_APPLICABLE = {
     'C13': 'statement about the real function e^x to one ulp; contracts here are integer-only and the Taylor loop has no termination measure (DESIGN.md section 7)',
     'C17': 'feature-gated code generic over foreign serde traits and strings; no contract within reach (DESIGN.md section 7)',
 }
-for _p in ['C02', 'C05', 'C06', 'C07', 'C08', 'C09', 'C10', 'C11', 'C12', 'C14', 'C15', 'C16', 'C19', 'C20']:
+for _p in ['C02', 'C05', 'C07', 'C08', 'C09', 'C10', 'C11', 'C12', 'C14', 'C15', 'C16', 'C19', 'C20']:
     NOT_APPLICABLE[_p] = _WIP
 
 _NOTE_COMMON = ('Assumed: num-bigint/num-traits/num-integer contracts (spec/shim_base.rs, vf/shimgen.py), std specs, '
@@ -74,6 +77,15 @@ prop('C01', units=['add', 'sub', 'mul', 'derived', 'prim_add', 'prim_sub', 'prim
                  'sum/difference/product (integer relation is_sum/is_diff/is_prod over i*10^-s), plus freedom from i64 overflow; '
                  'not covered: the two Sum impls (Iterator::fold with a closure has no Verus spec)'),
      level_note=_NOTE_COMMON + ' Verus resolves `x op &y` through the owned impl; every ownership variant carries the same contract and is proved against its own body.',
+     technique=_TECH)
+
+prop('C06', units=['round', 'scale', 'context', 'config', 'core', 'pow10'], level='proof',
+     level_text=('Verus proves on the real body of with_scale_round that the result carries exactly the requested scale and equals '
+                 'sign * round_mag(|i|, k, mode) -- the mode table of the RoundingMode documentation applied to the whole discarded tail -- '
+                 'in all three regimes (rounding point left of / at / inside the digits) including the carry loop; round_pair equals the '
+                 'mode table for every digit pair, sign and tail flag; with_scale truncation equals rounding Down; round(n) uses the '
+                 'configured default mode (symbolic constant); extension multiplies by the exact power of ten'),
+     level_note=_NOTE_COMMON + ' round_u32 is not yet under contract.',
      technique=_TECH)
 
 prop('C18', units=['pow10', 'core', 'canon', 'scale'], level='proof',
